@@ -374,6 +374,7 @@ class TS:
         self.effect_callees = None  # regex: calls reported as ("EFFECT", q, fn, block)
         self.no_inline = set()      # callees never inlined (reported as EFFECT / skipped instead)
         self.handler_nesting = 2    # how many on_task handler frames may nest
+        self.env_actions = None     # {announced state: [states a client action may put the task into]} - interference at announce points
         self.on_task = self._find_on_task()
         self._hook_effect = {}
         self._self_only = {}
@@ -928,6 +929,16 @@ class TS:
             env2[b] = ("RES", "Ok")
             self.stats.setdefault("H_used", set()).add((fn.q, b))
         # ---- emit_task_event runs the on_task handler synchronously --------------------------------
+        if q == Q_EMIT_EVENT and ev is not None and ev[0] == "EMIT_EVENT" and self.env_actions and s2 in self.env_actions:
+            # interference: the announcement reaches a client, whose answer (another thread) may change the task from
+            # here on; the facts read before stay as they are (that is what the running invocation still believes)
+            for S in self.env_actions[s2]:
+                eev = ("ENV", s2, S, fn.q, b)
+                mon_e = monitor.on_event(mon2, eev)
+                self._after(mon_e, report, eev)
+                if mon_e == "STOP" or (isinstance(mon_e, tuple) and mon_e and mon_e[0] == "VIOL"):
+                    continue
+                push(nxt, s=S, cok=cok2, mon=mon_e, env=env2, ev=eev)
         if q == Q_EMIT_EVENT and ev is not None and ev[0] == "EMIT_EVENT" and depth < self.maxdepth + 3:
             # the handler may nest (a hook that revives the task and reviews it emits again): two levels
             if sum(1 for f in frames if f.fn.q == self.on_task.q) < self.handler_nesting:
@@ -1044,6 +1055,8 @@ def fmt_event(m, ev):
         return "EFFECT %s in %s" % (short_name(ev[1]), at(ev[2], ev[3]))
     if k == "BRANCH":
         return "match %s = %s in %s" % (ev[1], "|".join(ev[2]), at(ev[3], ev[4]))
+    if k == "ENV":
+        return "CLIENT answers the task announced as %s: it becomes %s (and is reported so) right after %s" % (ev[1], ev[2], at(ev[3], ev[4]))
     if k == "EXIT":
         return "EXIT %s with state %s" % (ev[1], ev[2])
     return str(ev)
